@@ -8,7 +8,9 @@ import (
 	"fmt"
 	"os"
 	"path/filepath"
+	"regexp"
 	"sort"
+	"strconv"
 	"strings"
 	"sync"
 	"testing"
@@ -221,6 +223,11 @@ type diffSpec struct {
 	perBatch func(rs *runState, b *batch, res *batchResult)
 	perRecord func(rs *runState, p *Program, r *Record) *violationT
 	mutate   func(t *rapid.T, p *Program) // post-processing of a drawn program (e.g. injection)
+	fixed    []*Program                  // table programs, run in addition to the drawn ones
+	fixedStyles bool                     // run the table once per import style
+	noTraceOwner bool                    // o != r is not a violation of this property (only counted)
+	onCompileFail func(rs *runState, p *Program, f *stageFailure, b *batch) bool // true = handled
+	onlyCalls    bool // drive entries are not executed (the oracle side cannot run generators: C13's source package)
 }
 
 type drawnBatch struct {
@@ -235,7 +242,9 @@ func (rs *runState) drawBatches(spec *diffSpec) ([]drawnBatch, error) {
 	if len(styles) == 0 {
 		styles = importStyles
 	}
-	err := drawAll(rs.seed, spec.batches, func(t *rapid.T) {
+	var err error
+	if spec.batches > 0 {
+		err = drawAll(rs.seed, spec.batches, func(t *rapid.T) {
 		var db drawnBatch
 		db.style = styles[rapid.IntRange(0, len(styles)-1).Draw(t, "style")]
 		for i := 0; i < spec.batchSize; i++ {
@@ -249,8 +258,43 @@ func (rs *runState) drawBatches(spec *diffSpec) ([]drawnBatch, error) {
 		}
 		all = append(all, db)
 	})
+	}
 	rs.programs += n
+	// table programs: deterministic batches
+	if len(spec.fixed) > 0 {
+		sts := []importStyle{styles[0]}
+		if spec.fixedStyles {
+			sts = styles
+		}
+		for si, st := range sts {
+			for i := 0; i < len(spec.fixed); i += spec.batchSize {
+				j := i + spec.batchSize
+				if j > len(spec.fixed) {
+					j = len(spec.fixed)
+				}
+				progs := spec.fixed[i:j]
+				if si > 0 {
+					// distinct names per style so evidence keys stay distinct
+					var cp []*Program
+					for _, p := range progs {
+						cp = append(cp, renameProgram(p, fmt.Sprintf("%sS%d", p.Name, si)))
+					}
+					progs = cp
+				}
+				all = append(all, drawnBatch{progs: progs, style: st})
+				rs.programs += len(progs)
+			}
+		}
+	}
 	return all, err
+}
+
+// renameProgram returns a deep copy with every occurrence of the program name replaced.
+func renameProgram(p *Program, name string) *Program {
+	b, _ := json.Marshal(p)
+	var c Program
+	_ = json.Unmarshal([]byte(strings.ReplaceAll(string(b), p.Name, name)), &c)
+	return &c
 }
 
 func progByName(progs []*Program, name string) *Program {
@@ -276,7 +320,11 @@ func (rs *runState) processRecords(spec *diffSpec, b *batch, res *batchResult) {
 		// behaviour collapse
 		rs.eval(progHash(p)+r.Entry+fmt.Sprint(r.Input)+r.Script, nt, p.Tags...)
 		_ = key
-		if !r.Equal {
+		if !r.Equal && spec.noTraceOwner {
+			rs.mu.Lock()
+			rs.classes["cross-check: differs from reference (owned by C01-C06)"]++
+			rs.mu.Unlock()
+		} else if !r.Equal {
 			what := fmt.Sprintf("%s %s input %v script %s: interleaved traces differ: %v", r.Prog, r.Entry, r.Input, r.Script, r.Diff)
 			kind := "trace"
 			if _, ok := r.Diff["u"]; ok && len(r.Diff) == 1 {
@@ -298,11 +346,20 @@ func (rs *runState) processRecords(spec *diffSpec, b *batch, res *batchResult) {
 				rs.addViolation(v)
 			}
 		}
-		if r.Traces != nil && r.Equal && nt {
+		if r.Traces != nil && r.Equal && (nt || rs.evals < 50) {
 			rs.sample(map[string]any{"program": p.Name, "tags": p.Tags, "entry": r.Entry, "input": r.Input, "script": r.Script,
-				"source": progSource(b.srcS, p.Name), "trace": clip(r.Traces["r"], 60)})
+				"source": progSource(b.srcS, p.Name), "trace": clip(oracleTrace(r.Traces), 60)})
 		}
 	}
+}
+
+func oracleTrace(t map[string][]string) []string {
+	for _, k := range []string{"r", "s", "o"} {
+		if v, ok := t[k]; ok {
+			return v
+		}
+	}
+	return nil
 }
 
 func clip(t []string, n int) []string {
@@ -329,12 +386,49 @@ func normDigits(s string) string {
 	return b.String()
 }
 
+// lineKind abstracts a trace line to its kind, so one root cause gives one signature
+func lineKind(l string) string {
+	l = strings.Trim(l, `"`)
+	switch {
+	case strings.HasPrefix(l, "mn="), l == "mn?", l == "call", l == "new", l == "stop", l == "<end>":
+		return l
+	case strings.HasPrefix(l, "cur0="):
+		return "cur0"
+	case strings.HasPrefix(l, "cur="):
+		return "cur"
+	case strings.HasPrefix(l, "res="):
+		return "res"
+	case strings.HasPrefix(l, "panic="):
+		return "panic"
+	case strings.HasPrefix(l, "e"):
+		return "ev"
+	case strings.HasPrefix(l, "v"):
+		return "vl"
+	}
+	return "?"
+}
+
+var reDiff = regexp.MustCompile(`^\d+: (\w+)=("(?:[^"\\]|\\.)*") (\w+)=("(?:[^"\\]|\\.)*")$`)
+
+var reDiffUO = regexp.MustCompile(`^\d+: u=("(?:[^"\\]|\\.)*") o=("(?:[^"\\]|\\.)*")$`)
+
+func unq(s string) string {
+	u, err := strconv.Unquote(s)
+	if err != nil {
+		return s
+	}
+	return u
+}
+
 func diffSignature(r *Record) string {
 	var parts []string
 	for _, k := range sortedKeys(r.Diff) {
 		d := r.Diff[k]
-		if i := strings.Index(d, ": "); i >= 0 {
-			d = d[i+2:]
+		if m := reDiff.FindStringSubmatch(d); m != nil {
+			a, _ := strconv.Unquote(m[2])
+			b, _ := strconv.Unquote(m[4])
+			parts = append(parts, m[1]+"="+lineKind(a)+" "+m[3]+"="+lineKind(b))
+			continue
 		}
 		parts = append(parts, normDigits(d))
 	}
@@ -378,6 +472,7 @@ func (rs *runState) runDiff(spec *diffSpec) {
 					defer pending.Done()
 					opts := spec.opts
 					opts.style = j.db.style
+					opts.onlyCalls = spec.onlyCalls
 					res, b := rs.tools.runBatch(j.db.progs, opts)
 					if b != nil {
 						defer b.cleanup()
@@ -421,6 +516,9 @@ func (rs *runState) runDiff(spec *diffSpec) {
 						sig := res.fail.Stage + ":" + normDiag(res.fail.Diag)
 						if res.fail.Timeout {
 							rs.infraProblem(fmt.Sprintf("%s timed out for %s", res.fail.Stage, p.Name))
+							return
+						}
+						if spec.onCompileFail != nil && spec.onCompileFail(rs, p, res.fail, b) {
 							return
 						}
 						if spec.ownsCompile {
@@ -473,6 +571,51 @@ func (rs *runState) runDiff(spec *diffSpec) {
 
 // ---------------------------------------------------------------------------------------------
 // reporting
+
+type knownFinding struct {
+	Property string `json:"property"`
+	ID       string `json:"id"`
+	Engine   string `json:"engine"`
+	Replay   string `json:"replay"`
+	What     string `json:"what"`
+}
+
+// reproduceKnown re-executes the reproduction of every finding listed in known_findings.json for
+// this property. A finding that still fails is reported as KNOWN-FINDING (never as a violation); the
+// generators leave its shape out by construction (knownExclusions).
+func (rs *runState) reproduceKnown() {
+	b, err := os.ReadFile(filepath.Join(rs.tools.verif, "known_findings.json"))
+	if err != nil {
+		return
+	}
+	var kf struct {
+		Findings []knownFinding `json:"findings"`
+	}
+	if json.Unmarshal(b, &kf) != nil {
+		return
+	}
+	for _, f := range kf.Findings {
+		if f.Property != rs.pid || f.Engine != "T" {
+			continue
+		}
+		rb, err := os.ReadFile(filepath.Join(rs.tools.verif, f.Replay))
+		if err != nil {
+			rs.infraProblem("known finding replay missing: " + f.Replay)
+			continue
+		}
+		var v violationT
+		if json.Unmarshal(rb, &v) != nil || v.Program == nil {
+			rs.infraProblem("known finding replay unreadable: " + f.Replay)
+			continue
+		}
+		if ok, _ := rs.failsLike(v.Program, &v); ok {
+			rs.known = append(rs.known, fmt.Sprintf("KNOWN-FINDING: property=%s %s: %s", rs.pid, f.ID, f.What))
+		} else {
+			fmt.Printf("note: known finding %s no longer reproduces on this tree\n", f.ID)
+		}
+	}
+	rs.extra["known_findings_excluded_by_construction"] = len(rs.known)
+}
 
 // finish groups violations by signature, shrinks one representative per signature, writes replay
 // files and prints VIOLATION lines. Returns the exit code.
